@@ -31,6 +31,7 @@ type SiteAssert struct {
 	Cl     *Clause
 	Ghost  bool // ghost_at: the clause `ghost(g) == expr` is a ghost assignment executed at the site
 	Hint   bool // use_at / unfold_at: the clause is a hint (lemma instance or unfolding) applied at the site
+	Site   string // assert_call only: restrict to call sites whose source line contains this text
 	Assume bool // callee name written with a trailing "!": the checked fact is also assumed afterwards (a stepping stone for later obligations)
 }
 
@@ -782,6 +783,14 @@ func (db *ContractDB) LoadFile(path, pkgPath string, trusted bool) error {
 				cur.CallAssumes = append(cur.CallAssumes, &SiteAssert{Text: strings.TrimSpace(parts[0]), Cl: cl, Ghost: true})
 			case "assert_call":
 				// assert_call T.m: expr over recv, arg0, arg1, ... and the caller's locals
+				// optional site filter: assert_call T.m @"source text": expr  - only call sites on lines containing the text
+				site := ""
+				if i := strings.Index(rest, " @\""); i >= 0 && i < strings.Index(rest+":", ":") {
+					if j := strings.Index(rest[i+3:], "\""); j >= 0 {
+						site = rest[i+3 : i+3+j]
+						rest = rest[:i] + rest[i+3+j+1:]
+					}
+				}
 				parts := strings.SplitN(rest, ":", 2)
 				if len(parts) != 2 {
 					return fmt.Errorf("%s: assert_call needs `<callee>: <expr>`", st.src)
@@ -791,7 +800,7 @@ func (db *ContractDB) LoadFile(path, pkgPath string, trusted bool) error {
 					return err
 				}
 				name := strings.TrimSpace(parts[0])
-				sa := &SiteAssert{Text: strings.TrimSuffix(name, "!"), Cl: cl, Assume: strings.HasSuffix(name, "!")}
+				sa := &SiteAssert{Text: strings.TrimSuffix(name, "!"), Cl: cl, Assume: strings.HasSuffix(name, "!"), Site: site}
 				cur.CallAsserts = append(cur.CallAsserts, sa)
 			case "partial":
 				cur.Partial = true
